@@ -25,3 +25,23 @@ Section Laws.
     law_self_close : forall x t, good x -> flt FO x t = true -> flt FO (fabs FO (fsub FO x x)) (c_eps FO) = true;
   }.
 End Laws.
+
+Section CmpLaws.
+  Variable FO : FloatOps.
+  Notation F := (F FO).
+
+  Record CmpLaws : Prop := {
+    (* |x - y| = |y - x| (round-to-nearest is symmetric) *)
+    law_abs_sub_sym : forall x y, fabs FO (fsub FO x y) = fabs FO (fsub FO y x);
+    (* the OrderedFloat order is total: NaN is the greatest element *)
+    law_oge_total : forall a b, oge FO a b = true \/ oge FO b a = true;
+  }.
+
+  Hypothesis CL : CmpLaws.
+
+  Lemma ocmp_antisym a b : ocmp FO a b = CompOpp (ocmp FO b a).
+  Proof.
+    unfold ocmp, olt, ogt. destruct (law_oge_total CL a b) as [H|H]; rewrite H; cbn [negb];
+      destruct (oge FO b a) eqn:E1; destruct (oge FO a b) eqn:E2; cbn [negb CompOpp]; try reflexivity; discriminate.
+  Qed.
+End CmpLaws.
